@@ -3,6 +3,7 @@
 //  * cipher lookup by name over the listed names and a generated perturbation set
 use std::convert::TryFrom;
 use tls_parser::*;
+use tls_parser::nom::Err;
 
 include!("gen_names.rs");
 include!("gen_ciphers.rs");
@@ -34,6 +35,64 @@ pub fn check_cipher_names() -> (usize, Option<String>) {
         for (from, to) in [("128", "256"), ("256", "128"), ("SHA256", "SHA384"), ("SHA384", "SHA256"), ("_SHA", "_MD5"), ("GCM", "CBC"), ("CBC", "GCM"), ("ECDHE", "DHE"), ("RSA", "DSS"), ("AES", "ARIA")] {
             if name.contains(from) { tried += 1; if let Some(d) = probe(&name.replacen(from, to, 1)) { return (tried, Some(d)); } }
         }
+    }
+    (tried, None)
+}
+
+// ---------------------------------------------------------------------------------------------
+// C16 bounded stand-in: tls_parser_many / parse_dtls_plaintext_records against the explicit loop over the
+// single-record parser, on all concatenations of <= 3 pieces from a small alphabet of records and tails.
+// (The deductive decision is the Verus units `many` / `dtls_many`; this only stands in when a rewritten body
+// falls outside what the contracts cover.)
+fn explicit_loop<'a, T, F>(mut i: &'a [u8], f: F) -> Result<(usize, usize), String>
+where F: Fn(&'a [u8]) -> IResult<&'a [u8], T> {
+    // returns (number of records, remainder length) or the class of the first record's failure
+    let mut n = 0usize;
+    loop {
+        match f(i) {
+            Ok((rem, _)) => { if rem.len() == i.len() { return Err("no-progress".into()); } n += 1; i = rem; }
+            Err(e) => {
+                if n == 0 { return Err(match e { Err::Incomplete(_) => "first-fails".into(), Err::Error(_) => "first-fails".into(), Err::Failure(_) => "first-fails".into() }); }
+                return match e { Err::Failure(_) => Err("failure-propagated".into()), _ => Ok((n, i.len())) };
+            }
+        }
+    }
+}
+
+pub fn check_multi_record() -> (usize, Option<String>) {
+    let tls: Vec<Vec<u8>> = vec![
+        vec![0x15, 3, 3, 0, 2, 1, 0], vec![0x14, 3, 3, 0, 1, 1], vec![0x17, 3, 3, 0, 0], vec![0x17, 3, 3, 0, 2, 9, 9],
+        vec![0x18, 3, 3, 0, 3, 1, 0, 0], vec![0x16, 3, 3, 0, 4, 0, 0, 0, 0], vec![0x15, 3, 3, 0, 4, 1, 0, 2, 40],
+        vec![0x15, 3, 3, 0, 2, 1], vec![0x15, 3, 3, 0x41, 0x01], vec![0x15, 3, 3], vec![0xff, 0, 0, 0, 0], vec![0x15, 3, 3, 0, 0], vec![],
+    ];
+    let dtls: Vec<Vec<u8>> = vec![
+        vec![0x14, 0xfe, 0xfd, 0, 0, 0, 0, 0, 0, 0, 1, 0, 1, 1], vec![0x15, 0xfe, 0xfd, 0, 0, 0, 0, 0, 0, 0, 2, 0, 2, 2, 40],
+        vec![0x16, 0xfe, 0xfd, 0, 0, 0, 0, 0, 0, 0, 3, 0x41, 0x01], vec![0x15, 0xfe, 0xfd, 0, 0, 0, 0, 0, 0, 0, 2, 0, 2, 2],
+        vec![0x17, 0xfe, 0xfd, 0, 0, 0, 0, 0, 0, 0, 4, 0, 0], vec![0x15, 0xfe, 0xfd, 0], vec![],
+    ];
+    let mut tried = 0;
+    for (which, alpha) in [(0, &tls), (1, &dtls)] {
+        let k = alpha.len();
+        for a in 0..k { for b in 0..k { for c in 0..k {
+            let mut buf = alpha[a].clone();
+            buf.extend_from_slice(&alpha[b]);
+            buf.extend_from_slice(&alpha[c]);
+            tried += 1;
+            let (want, got): (Result<(usize, usize), String>, Result<(usize, usize), String>) = if which == 0 {
+                (explicit_loop(&buf, parse_tls_plaintext), match tls_parser_many(&buf) { Ok((rem, v)) => Ok((v.len(), rem.len())), Err(_) => Err("first-fails".into()) })
+            } else {
+                (explicit_loop(&buf, parse_dtls_plaintext_record), match parse_dtls_plaintext_records(&buf) { Ok((rem, v)) => Ok((v.len(), rem.len())), Err(_) => Err("first-fails".into()) })
+            };
+            if let Err(ref w) = want { if w == "failure-propagated" || w == "no-progress" {
+                return (tried, Some(format!("{} single-record parser answered {} on {:02x?}", if which == 0 { "TLS" } else { "DTLS" }, w, buf)));
+            } }
+            if want != got {
+                return (tried, Some(format!("{} on {:02x?}: explicit loop over the single-record parser gives {:?} (records, remainder length) but the multi-record parser gives {:?}",
+                    if which == 0 { "tls_parser_many" } else { "parse_dtls_plaintext_records" }, buf, want, got)));
+            }
+            #[allow(deprecated)]
+            if which == 0 { if format!("{:?}", tls_parser(&buf)) != format!("{:?}", parse_tls_plaintext(&buf)) { return (tried, Some(format!("tls_parser differs from parse_tls_plaintext on {:02x?}", buf))); } }
+        } } }
     }
     (tried, None)
 }
